@@ -17,7 +17,7 @@ from .store import CaseResult  # noqa: F401  (re-exported)
 
 PROFILES = {
     # name: dict(pool size, size profile, ops per case, weights, second container prob, extras)
-    'general': dict(pool=11, sizes='small', nops=(8, 30), weights=None, two=0.45),
+    'general': dict(pool=11, sizes='small', nops=(8, 30), weights=None, two=0.45, thresholds=0.25),
     'roundtrip': dict(pool=9, sizes='small', nops=(6, 14), two=0.0,
                       weights={'addLoose': 30, 'addPacked': 30, 'packAll': 12, 'reopen': 3, 'loosen': 4, 'clean': 3}),
     'roundtrip_big': dict(pool=6, sizes='chunky', nops=(4, 9), two=0.0,
@@ -28,11 +28,11 @@ PROFILES = {
                      weights={'addLoose': 20, 'addPacked': 14, 'packAll': 16, 'repack': 22, 'clean': 5, 'loosen': 3, 'delete': 3}),
     'compress_big': dict(pool=6, sizes='chunky', nops=(5, 10), two=0.0,
                          weights={'addLoose': 20, 'addPacked': 14, 'packAll': 16, 'repack': 22, 'clean': 5}),
-    'delete': dict(pool=10, sizes='small', nops=(8, 26), two=0.0,
+    'delete': dict(pool=10, sizes='small', nops=(8, 26), two=0.0, thresholds=0.5,
                    weights={'addLoose': 20, 'addPacked': 18, 'packAll': 12, 'delete': 20, 'repack': 10, 'repackOne': 6, 'clean': 5, 'loosen': 4, 'reopen': 2}),
     'appendonly': dict(pool=10, sizes='small', nops=(10, 30), two=0.4, small_target=0.85,
                        weights={'addLoose': 24, 'addPacked': 24, 'packAll': 14, 'clean': 7, 'import': 10, 'reopen': 8, 'loosen': 3}),
-    'import': dict(pool=10, sizes='small', nops=(8, 22), two=1.0,
+    'import': dict(pool=10, sizes='small', nops=(8, 22), two=1.0, thresholds=0.3,
                    weights={'addLoose': 18, 'addPacked': 14, 'packAll': 8, 'import': 30, 'delete': 4, 'clean': 4, 'repack': 3, 'reopen': 2}),
     'bulk': dict(pool=14, sizes='tiny', nops=(8, 22), two=0.3, thresholds=True,
                  weights={'addLoose': 26, 'addPacked': 20, 'packAll': 14, 'clean': 10, 'delete': 8, 'import': 8, 'repack': 3, 'loosen': 3}),
@@ -65,7 +65,9 @@ def build_case(prop: str, profile: str, case_id: int):
     cfgs = {'a': cfg_a}
     if rng.random() < pr.get('two', 0):
         cfgs['b'] = store.default_cfg(rng, pr.get('small_target', 0.6))
-    if pr.get('thresholds'):
+    th = pr.get('thresholds')
+    if th is True or (th and rng.random() < th):
+        # the library's batch sizes (IN-lists, switch to a full scan) lowered so that small requests cross them
         for c in cfgs.values():
             c.in_sql_max = rng.choice([1, 2, 3, 5])
             c.max_chunk_iter = rng.choice([0, 2, 4, 7, 12])
